@@ -108,7 +108,11 @@ def replayEv (s : St) (ev : String) : Except String St :=
         | some o =>
           if o.id != id || o.kind != k then .error s!"op queue head is id {o.id}" else
           if ok == "ok" && s.sinkClosed then .error "write succeeded after the sink was closed" else
-          (stepE (.drvOp (ok == "ok"))).map (·.1)
+          match stepE (.drvOp (ok != "fail")) with
+          | .ok (s1, ob) =>
+            if (ob == .skipped) != (ok == "skipped") then .error s!"model: request {if ob == .skipped then "skipped" else "processed"}"
+            else .ok s1
+          | .error e => .error e
         | none => .error "dangling op index"
       | none => .error "op queue empty"
     | _, _ => .error "bad drvop"
